@@ -733,73 +733,33 @@ let emit_hist : Buffer.t option ref = ref None
 let hexs (x : string) : string = if x = "" then "-" else S.concat "" (L.init (S.length x) (fun i -> Printf.sprintf "%02x" (Char.code (S.get x i))))
 let hline fmt = Printf.ksprintf (fun l -> match !emit_hist with Some b -> Buffer.add_string b l; Buffer.add_char b '\n' | None -> ()) fmt
 let apply_tx (eng : Engine.db) (spec : Spec.sdb) (txn : int) (ops : mop list) : (Engine.db, string) result * Spec.sdb =
-  (* reference: handles per path *)
-  let t = n_of_int txn in
-  let (sp, _) = Spec.step spec (Spec.CBegin (t, true)) in
+  (* the reference machine is driven by the EXTRACTED SpecPath.path_step (handles per path, one get_or_create call per
+     component); the engine gets the same operations with every successful open made explicit (SpecPath.expand) *)
+  let to_op o = match o with
+    | MTouch p -> Engine.Touch (L.map bs p)
+    | MPut (p, k, v) -> Engine.Put (L.map bs p, bs k, bs v)
+    | MDel (p, k) -> Engine.Del (L.map bs p, bs k)
+    | MDelB (p, nm) -> Engine.DelB (L.map bs p, bs nm) in
+  let ops = L.map to_op ops in
+  let st = L.fold_left SpecPath.path_step (SpecPath.pinit spec.Spec.d_committed) ops in
+  let committed' = Spec.strip st.SpecPath.p_tx.Spec.t_root in
+  let sp' = { Spec.d_committed = committed'; Spec.d_txs = [] } in
+  let eops = L.concat (L.map SpecPath.expand ops) in
   hline "begin %d w" txn;
-  let sp = ref sp in
-  let handles : (string list, int) Hashtbl.t = Hashtbl.create 16 in
-  Hashtbl.replace handles [] 0;
-  let nexth = ref 1 in
-  let eops = ref [] in
-  let rec handle path =
-    match Hashtbl.find_opt handles path with
-    | Some h -> Some h
-    | None ->
-        (match L.rev path with
-         | [] -> Some 0
-         | nm :: rparent ->
-             (match handle (L.rev rparent) with
-              | None -> None
-              | Some ph ->
-                  let h = !nexth in incr nexth;
-                  let (sp', r) = Spec.step !sp (Spec.COp (t, Spec.OGoc (n_of_int ph, bs nm, n_of_int h))) in
-                  hline "goc %d %d %s %d" txn ph (hexs nm) h;
-                  sp := sp';
-                  (* each successful open / create is a call of its own in the library: it persists even when a later
-                     component of the path is refused *)
-                  (match r with Spec.ROk -> Hashtbl.replace handles path h; eops := !eops @ [Engine.Touch (L.map bs path)]; Some h | _ -> None))) in
-  L.iter (fun o ->
-    match o with
-    | MTouch p -> (match handle p with Some _ -> eops := !eops @ [Engine.Touch (L.map bs p)] | None -> ())
-    | MPut (p, k, v) ->
-        (match handle p with
-         | Some h ->
-             let (sp', r) = Spec.step !sp (Spec.COp (t, Spec.OPut (n_of_int h, bs k, bs v))) in
-             hline "put %d %d %s %s" txn h (hexs k) (hexs v);
-             sp := sp';
-             (match r with Spec.ROpt _ -> eops := !eops @ [Engine.Put (L.map bs p, bs k, bs v)] | _ -> ())
-         | None -> ())
-    | MDel (p, k) ->
-        (match handle p with
-         | Some h ->
-             let (sp', r) = Spec.step !sp (Spec.COp (t, Spec.ODel (n_of_int h, bs k))) in
-             hline "del %d %d %s" txn h (hexs k);
-             sp := sp';
-             (match r with Spec.ROpt _ -> eops := !eops @ [Engine.Del (L.map bs p, bs k)] | _ -> ())
-         | None -> ())
-    | MDelB (p, nm) ->
-        (match handle p with
-         | Some h ->
-             let (sp', r) = Spec.step !sp (Spec.COp (t, Spec.ODelB (n_of_int h, bs nm))) in
-             hline "delb %d %d %s" txn h (hexs nm);
-             sp := sp';
-             (match r with
-              | Spec.ROk ->
-                  eops := !eops @ [Engine.DelB (L.map bs p, bs nm)];
-                  Hashtbl.filter_map_inplace (fun path h -> let pl = L.length p in
-                    if L.length path > pl && L.filteri (fun i _ -> i < pl) path = p && L.nth path pl = nm then None else Some h) handles
-              | _ -> ())
-         | None -> ())) ops;
-  let (sp', _) = Spec.step !sp (Spec.CCommit t) in
+  L.iter (fun c -> match c with
+    | Spec.OGoc (h, nm, nh) -> hline "goc %d %d %s %d" txn (int_of_n h) (hexs (string_of_bytes nm)) (int_of_n nh)
+    | Spec.OPut (h, k, v) -> hline "put %d %d %s %s" txn (int_of_n h) (hexs (string_of_bytes k)) (hexs (string_of_bytes v))
+    | Spec.ODel (h, k) -> hline "del %d %d %s" txn (int_of_n h) (hexs (string_of_bytes k))
+    | Spec.ODelB (h, nm) -> hline "delb %d %d %s" txn (int_of_n h) (hexs (string_of_bytes nm))
+    | _ -> ()) (L.rev st.SpecPath.p_log);
   hline "commit %d" txn; hline "snap"; hline "check";
   hline "begin %d r" (txn + 100000); hline "dump %d" (txn + 100000); hline "drop %d" (txn + 100000);
-  let er = match Engine.run_tx_auto eng !eops with
+  let er = match Engine.run_tx_auto eng eops with
     | Engine.Ok e ->
         (* the tier-B statement itself, evaluated: abs_db after = sem_tx ops (abs_db before) = the reference machine's root *)
-        let lhs = EngineAbs.abs_db e and rhs = EngineAbs.sem_tx !eops (EngineAbs.abs_db eng) in
+        let lhs = EngineAbs.abs_db e and rhs = EngineAbs.sem_tx eops (EngineAbs.abs_db eng) in
         if lhs <> rhs then Error "statement: abs_db (run_tx st ops) <> sem_tx ops (abs_db st)"
-        else if rhs <> Spec.strip sp'.Spec.d_committed then Error "statement: sem_tx differs from the handle-based reference machine"
+        else if rhs <> committed' then Error "statement: sem_tx (expand ops) differs from the handle-based reference machine"
         else Ok e
     | Engine.Panic m -> Error ("panic: " ^ string_of_coq m)
     | Engine.Err m -> Error ("error: " ^ string_of_coq m) in
